@@ -24,6 +24,8 @@ type e5Exception struct {
 	//   "guard:<text>"       <text> occurs in the rendered dominating guards of the site ("cond=true/false")
 	//   "only-caller:<func>" every use of the enclosing function is a static call from <func> (short name)
 	//   "caller-arg:<text>"  the first non-receiver argument at each such call renders containing <text>
+	//   "returns:<func>=<type>" every return value of that module function has that dynamic type
+	//   "elems:<type>"       every value converted to the asserted interface type inside this function has that dynamic type
 	//   "ssa:<text>"         the resolved (SSA) form of the index/bound expression contains <text> (width-changing conversions are shown)
 	requires []string
 }
@@ -83,6 +85,60 @@ func checkPremises(p *Program, fn *ssa.Function, in ssa.Instruction, ex e5Except
 			if !strings.Contains(strings.ReplaceAll(d, " ", ""), strings.TrimPrefix(req, "ssa:")) {
 				return req + " (expression is now " + d + ")"
 			}
+		case strings.HasPrefix(req, "no-field-store:"):
+			// no-field-store:<shortFunc>=<field>: that module function (and its module callees) never stores to a field of that name
+			spec := strings.SplitN(strings.TrimPrefix(req, "no-field-store:"), "=", 2)
+			found := false
+			for _, g := range p.ModFuncs() {
+				if shortFunc(g) == spec[0] {
+					found = true
+					if writesOf(g, 0)[spec[1]] {
+						return req + " (it now stores to " + spec[1] + ")"
+					}
+				}
+			}
+			if !found {
+				return req + " (function not found)"
+			}
+		case strings.HasPrefix(req, "returns:"):
+			// returns:<shortFunc>=<type>: every return of that module function is a value of that dynamic type
+			spec := strings.SplitN(strings.TrimPrefix(req, "returns:"), "=", 2)
+			ok := false
+			for _, g := range p.ModFuncs() {
+				if shortFunc(g) != spec[0] {
+					continue
+				}
+				ok = true
+				for _, rv := range returnValues(g, 0) {
+					mi, isMI := rv.(*ssa.MakeInterface)
+					if !isMI || shortType(mi.X.Type().String()) != strings.TrimPrefix(spec[1], "*") && mi.X.Type().String() != spec[1] {
+						ok = false
+					}
+				}
+			}
+			if !ok {
+				return req
+			}
+		case strings.HasPrefix(req, "elems:"):
+			// elems:<type>: every interface value appended to / stored into a slice in this function has that dynamic type
+			want := strings.TrimPrefix(req, "elems:")
+			bad := ""
+			var ta *ssa.TypeAssert
+			if t, ok := in.(*ssa.TypeAssert); ok {
+				ta = t
+			}
+			allInstrs(fn, func(x ssa.Instruction) {
+				mi, ok := x.(*ssa.MakeInterface)
+				if !ok || ta == nil || !types.Identical(mi.Type(), ta.X.Type()) {
+					return
+				}
+				if !strings.HasSuffix(mi.X.Type().String(), want) {
+					bad = mi.X.Type().String() + " at " + p.Pos(mi.Pos())
+				}
+			})
+			if bad != "" {
+				return req + " (also holds " + bad + ")"
+			}
 		case strings.HasPrefix(req, "only-caller:"), strings.HasPrefix(req, "caller-arg:"):
 			want := strings.TrimPrefix(strings.TrimPrefix(req, "only-caller:"), "caller-arg:")
 			n := 0
@@ -92,7 +148,7 @@ func checkPremises(p *Program, fn *ssa.Function, in ssa.Instruction, ex e5Except
 					c := callOf(x)
 					if c != nil && c.StaticCallee() == fn {
 						n++
-						if strings.HasPrefix(req, "only-caller:") && shortFunc(g) != want {
+						if strings.HasPrefix(req, "only-caller:") && outerFunc(g) != want {
 							bad = "also called from " + shortFunc(g)
 						}
 						if strings.HasPrefix(req, "caller-arg:") {
@@ -174,8 +230,13 @@ func e5Check(h H, rule string, scope []*ssa.Function, exceptions map[string]e5Ex
 				st.Sites++
 				key := shortFunc(fn) + "|panic"
 				if ex, ok := exceptions[key]; ok {
+					if missing := checkPremises(h.p, fn, in, ex); missing != "" {
+						st.Failed++
+						r.Fail(rule, key, in.Pos(), "the manual argument for this explicit panic rests on a premise that no longer holds: "+missing)
+						return
+					}
 					st.Exception++
-					r.Hold(rule, key, in.Pos(), "explicit panic accepted: "+ex.reason)
+					r.Hold(rule, key, in.Pos(), "explicit panic accepted: "+ex.reason, ex.requires...)
 				} else {
 					st.Failed++
 					r.Fail(rule, key, in.Pos(), "explicit panic reachable in code that must be total")
@@ -187,10 +248,15 @@ func e5Check(h H, rule string, scope []*ssa.Function, exceptions map[string]e5Ex
 					return
 				}
 				st.Sites++
-				key := shortFunc(fn) + "|assert:" + strings.ReplaceAll(describe(t), " ", "")
+				key := shortFunc(fn) + "|assert:" + strings.ReplaceAll(types.TypeString(t.AssertedType, func(pk *types.Package) string { return pk.Name() }), " ", "")
 				if ex, ok := exceptions[key]; ok {
+					if missing := checkPremises(h.p, fn, in, ex); missing != "" {
+						st.Failed++
+						r.Fail(rule, key, in.Pos(), "the manual argument for this unchecked type assertion rests on a premise that no longer holds: "+missing)
+						return
+					}
 					st.Exception++
-					r.Hold(rule, key, in.Pos(), "unchecked type assertion accepted: "+ex.reason)
+					r.Hold(rule, key, in.Pos(), "unchecked type assertion accepted: "+ex.reason, ex.requires...)
 				} else {
 					st.Failed++
 					r.Fail(rule, key, in.Pos(), "unchecked type assertion panics when the dynamic type differs", describe(t))
